@@ -9,6 +9,8 @@ after `resetpol`: the universe of host objects and the token-aware policy's meta
 structure Cl where
   ring : List Entry := []
   uni : List PHost := []
+  /-- after `resetord`: the layout under the ordered partitioner, every token as its bytes -/
+  ohosts : List (Host × List (List Nat)) := []
   pol : PolState := polInit 9 (fun _ => none)
 
 def init : Cl := {}
@@ -28,6 +30,29 @@ def parseRfs (s : String) : Option (List (Nat × Nat)) :=
   (s.splitOn ",").mapM (fun kv => match kv.splitOn "=" with
     | [k, v] => do pure ((← k.toNat?), (← v.toNat?))
     | _ => none)
+
+/-- host under the ordered partitioner: `id/dc/rack/hex,hex…` — the token TEXTS Cassandra reports; decoded to bytes -/
+def parseOHost (s : String) : Option (Host × List (List Nat)) :=
+  match s.splitOn "/" with
+  | [i, d, r, ts] => do
+    let id ← i.toNat?
+    let dc ← d.toNat?
+    let rack ← r.toNat?
+    let toks ← if ts == "-" then some [] else
+      (ts.splitOn ",").mapM (fun t => (Util.parseHex t).map (fun bs => bs.map (·.toNat)))
+    pure ({ id := id, dc := dc, rack := rack }, toks)
+  | _ => none
+
+def parseKey (s : String) : Option (List Nat) := (Util.parseHex s).map (fun bs => bs.map (·.toNat))
+
+def showText (t : List Nat) : String := if t.isEmpty then "-" else String.ofList (t.map Char.ofNat)
+
+/-- the ring the driver builds: from the token texts (`Spec.hexOf` of the bytes) -/
+def driverRingO (hs : List (Host × List (List Nat))) : List OEntry :=
+  buildRingO (hs.map (fun ht => (ht.1, ht.2.map Spec.hexOf)))
+
+/-- Cassandra's ring: the tokens themselves (bytes), ascending -/
+def cassandraRingO (hs : List (Host × List (List Nat))) : List OEntry := buildRingO hs
 
 def showHosts (l : List Host) : String := "[" ++ ",".intercalate (l.map (fun h => toString h.id)) ++ "]"
 
@@ -157,6 +182,12 @@ def showLookup : Lookup → String
   snts rfs t…                        → per token the replicas (or crash:<class>); model answers with Spec.nts — for every
                                        ring: vnodes, token-less hosts, datacenters unknown to the ring / to the keyspace
   strategy <class-hex> k=v…          → getStrategy
+  resetord id/dc/rack/hex,… …          → ring under the ordered partitioner built from the token TEXTS Cassandra reports (hex)
+  okey hexkey…                        → owner of the partition key (GetHostForToken(Hash(key))); model answers with Spec.ownerO on
+                                       Cassandra's ring (spec-backed; emitted only where C10_ordered_lookup_partial's hypothesis holds)
+  oagree hexkey…                      → per key 1/0: does C10_ordered_lookup_partial's hypothesis hold (harness: its own classification predicate)
+  xokey hexkey…                       → the same, model = getHostForTokenO on the driver's ring (model-vs-code, KF-C10-5)
+  sstrategy <class-hex> k=v…         → getStrategy for a strategy class Cassandra ships; model answers with Spec.strategy (C10_strategy)
   resetpol <sessKs> id/addr/dc/rack/t,… …  → new tokenAwareHostPolicy, universe of host objects (index = position), every schema unreadable
   pev add i | addmany i,j | rem i | up i | down i | part m|r|o|k|e | kc ks   → the policy event, answer = dump of the metadata
   pfresh                             → the ghost field `fresh` (keyspaces whose schema is unchanged since the policy last read it)
@@ -267,6 +298,41 @@ def step (s : Cl) (ws : List String) : Cl × String :=
   | "strategy" :: cls :: opts =>
     match Util.parseHex cls, opts.mapM parseOpt with
     | some c, some os => (s, showStrategy (getStrategy (c.map (fun b => Char.ofNat b.toNat)) os))
+    | _, _ => (s, "bad-op")
+  | "resetord" :: hs =>
+    match hs.mapM parseOHost with
+    | none => (s, "bad-op")
+    | some l =>
+      let ring := driverRingO l
+      ({ ohosts := l },
+        if ring.isEmpty then "empty" else " ".intercalate (ring.map (fun e => showText e.1 ++ ":" ++ toString e.2.id)))
+  | "okey" :: ks =>
+    -- spec-backed (C10_ordered_lookup_partial): the owner on Cassandra's ring; emitted only where the comparisons agree
+    match ks.mapM parseKey with
+    | none => (s, "bad-op")
+    | some ks => (s, " ".intercalate (ks.map (fun k => match Spec.ownerO (cassandraRingO s.ohosts) k with
+        | some e => toString e.2.id ++ "@" ++ showText (Spec.hexOf e.1)
+        | none => "nil")))
+  | "oagree" :: ks =>
+    -- the hypothesis `hag` of C10_ordered_lookup_partial evaluated by the model (ties the harness's classification
+    -- okey / xokey to the theorem's hypothesis)
+    match ks.mapM parseKey with
+    | none => (s, "bad-op")
+    | some ks => (s, " ".intercalate (ks.map (fun k =>
+        if (cassandraRingO s.ohosts).all (fun e => lexLt (Spec.hexOf e.1) k == lexLt e.1 k) then "1" else "0")))
+  | "xokey" :: ks =>
+    -- model-vs-code: GetHostForToken(Hash(key)) on the ring of the token texts (KF-C10-5)
+    match ks.mapM parseKey with
+    | none => (s, "bad-op")
+    | some ks => (s, " ".intercalate (ks.map (fun k => match getHostForTokenO (driverRingO s.ohosts) (orderedHash k) with
+        | some e => toString e.2.id ++ "@" ++ showText e.1
+        | none => "nil")))
+  | "sstrategy" :: cls :: opts =>
+    -- spec-backed (C10_strategy): only emitted for the strategy classes Cassandra ships; answered with Spec.strategy
+    match Util.parseHex cls, opts.mapM parseOpt with
+    | some c, some os => (s, match Placement.Spec.strategy (c.map (fun b => Char.ofNat b.toNat)) os with
+        | some st => showStrategy st
+        | none => "unspecified-class")
     | _, _ => (s, "bad-op")
   | _ => (s, "bad-op")
 
